@@ -56,11 +56,17 @@ Definition popitem {V} (d : list (Z * V)) : option (list (Z * V) * V) :=
 
 Record sbond := mkSB { sb_n : Z; sb_m : Z; sb_q : qbond; sb_stereo : option bool }.
 
-(* if n in stereo_bonds and m in stereo_bonds: if m not in stereo_bonds[n]: popitem from both, stereo = s1 == s2 *)
-Definition stereo_of (sb : Parser.sdict) (n m : Z) : pyres (option bool * Parser.sdict) :=
+(* b == 2 if isinstance(b, int) else 2 in (b if isinstance(b, list) else b.order) *)
+Definition can_double (b : payload) : bool :=
+  match b with PInt o => o =? 2 | PZs l => zmem 2 l | PQB l _ => zmem 2 l | _ => false end.
+(* code after fix f821fac:
+   if n in stereo_bonds and m in stereo_bonds and stereo_bonds[n] and stereo_bonds[m] and <possible double bond>:
+       if m not in stereo_bonds[n]: popitem from both, stereo = s1 == s2 *)
+Definition stereo_of (sb : Parser.sdict) (n m : Z) (b : payload) : pyres (option bool * Parser.sdict) :=
   match zget sb n, zget sb m with
-  | Some dn, Some _ =>
-      if zmem m (keys dn) then Ok (None, sb)
+  | Some dn, Some dm0 =>
+      if negb (nonempty dn && nonempty dm0 && can_double b) then Ok (None, sb)
+      else if zmem m (keys dn) then Ok (None, sb)
       else match popitem dn with
            | None => Err KeyError
            | Some (dn', s1) =>
@@ -68,7 +74,7 @@ Definition stereo_of (sb : Parser.sdict) (n m : Z) : pyres (option bool * Parser
                match zget sb1 m with
                | None => Err KeyError
                | Some dm => match popitem dm with
-                            | None => Err KeyError
+                            | None => Err KeyError                  (* n = m: the one mark was popped already *)
                             | Some (dm', s2) => Ok (Some (Bool.eqb s1 s2), Parser.zset sb1 m dm')
                             end
                end
@@ -80,7 +86,7 @@ Fixpoint bonds_loop (sb : Parser.sdict) (bs : list (Z * Z * payload)) (seen : li
   match bs with
   | [] => Ok []
   | (n, m, b) :: r =>
-      match stereo_of sb n m with
+      match stereo_of sb n m b with
       | Err e => Err e
       | Ok (st, sb') =>
           match qbond_of_payload b with
